@@ -75,6 +75,11 @@ func (st *stream) readFrameHeader() (ftype frameType, err error) {
 	}
 	size, err := st.readVarint()
 	if err != nil {
+		if err == io.EOF {
+			// The stream ended between the type and length fields:
+			// the frame is truncated.
+			err = errH3FrameError
+		}
 		return 0, err
 	}
 	st.lim = size
